@@ -624,16 +624,37 @@ def read_partition(ds, n):
     return frozenset(frozenset(g) for g in groups), groups
 
 
-def check_dsu(ctx, n, history):
+def check_dsu(ctx, n, history, binary_first=False):
     from superrec2.utils.disjoint_set import DisjointSet
 
-    case = {"kind": "dsu", "n": n, "history": [list(h) for h in history]}
+    case = {"kind": "dsu", "n": n, "history": [list(h) for h in history], "binary_first": binary_first}
     want, want_rets = model_partition(n, history)
     try:
         ds = DisjointSet(n)
         rets = [ds.unite(a, b) for a, b in history]
         if rets != want_rets:
             ctx.viol("C20.dsu", case, f"unite return values {rets}, expected {want_rets}")
+        if binary_first:
+            # binary() straight after the unions: no find()/to_list() has compressed the parent chains yet
+            ctx.count("mon.dsu_binary_on_uncompressed")
+            got_bins = collections.Counter()
+            for b in ds.binary():
+                # element-wise reading first (find), then the grouped reading
+                by_find = {}
+                for x in range(n):
+                    by_find.setdefault(b.find(x), set()).add(x)
+                pf = frozenset(frozenset(g) for g in by_find.values())
+                p, _ = read_partition(b, n)
+                if pf != p:
+                    ctx.viol("C20.dsu", case, f"a binary() result read by find() gives {sorted(map(sorted, pf))}, to_list() gives {sorted(map(sorted, p))}")
+                got_bins[p] += 1
+                if len(b) != 2:
+                    ctx.viol("C20.dsu", case, f"binary() result reports {len(b)} groups")
+            want_bins = two_block_coarsenings(want)
+            if any(k > 1 for k in got_bins.values()):
+                ctx.viol("C20.dsu", case, "binary() on a freshly united structure returned a coarsening twice")
+            if set(got_bins) != want_bins:
+                ctx.viol("C20.dsu", case, f"binary() on a freshly united structure returned {len(got_bins)} distinct coarsenings, expected {len(want_bins)}")
         got, groups = read_partition(ds, n)
         if got != want or sum(len(g) for g in groups) != n:
             ctx.viol("C20.dsu", case, f"partition {sorted(map(sorted, got))}, expected {sorted(map(sorted, want))}")
@@ -761,6 +782,56 @@ def run(ctx, spec):
             # balanced merging: ranks tie repeatedly
             history = [(0, 1), (2, 3), (4, 5), (6, 7), (0, 2), (4, 6), (0, 4)][: rng.randint(3, 7)] + history[:3]
         check_dsu(ctx, n, history)
+    for _ in range(spec["nrand"] // 2):
+        history, n = staircase_history(rng)
+        check_dsu(ctx, n, history, binary_first=rng.random() < 0.7)
+
+
+def staircase_history(rng):
+    """Blocks of sizes 1/2/4/8 (and others) united internally in binomial, chain or star order, in any interleaving, then
+    a few unions between blocks: union-by-rank builds parent chains of depth 1-3 that find() has not compressed."""
+    sizes = rng.choice([[2, 4, 8, 1], [1, 2, 4, 8], [8, 4, 2, 1], [3, 4, 8], [2, 2, 4, 4, 1], [4, 8, 2, 1, 1], [2, 4, 8, 3], [5, 6, 3, 1], [16, 2, 1], [16, 4, 2, 1], [1, 2, 16], [32, 3], [16, 16, 1]])
+    if rng.random() < 0.4:
+        sizes = rng.sample(sizes, len(sizes))
+    n = sum(sizes)
+    ids = list(range(n))
+    if rng.random() < 0.4:
+        rng.shuffle(ids)
+    blocks, at = [], 0
+    for sz in sizes:
+        blocks.append(ids[at:at + sz])
+        at += sz
+    seqs = []
+    for c in blocks:
+        mode = rng.choice(["binomial", "binomial", "chain", "star"])
+        pairs = []
+        if mode == "binomial":
+            step = 1
+            while step < len(c):
+                pairs += [(c[i], c[i + step]) for i in range(0, len(c) - step, 2 * step)]
+                step *= 2
+        elif mode == "chain":
+            pairs = [(c[i], c[i + 1]) for i in range(len(c) - 1)]
+        else:
+            pairs = [(c[0], x) for x in c[1:]]
+        if rng.random() < 0.3:
+            pairs = [(b, a) for a, b in pairs]
+        seqs.append(pairs)
+    history = []
+    if rng.random() < 0.5:
+        for sq in seqs:
+            history += sq
+    else:
+        live = [list(sq) for sq in seqs if sq]
+        while live:
+            sq = rng.choice(live)
+            history.append(sq.pop(0))
+            if not sq:
+                live.remove(sq)
+    for _ in range(rng.choice([0, 0, 1, 2])):
+        a, b = rng.sample(range(len(blocks)), 2)
+        history.append((rng.choice(blocks[a]), rng.choice(blocks[b])))
+    return history, n
 
 
 def _rename_leaves(x, ren):
@@ -789,6 +860,6 @@ def replay(ctx, case):
     elif case["kind"] == "comptriples":
         check_component_triples(ctx, case["leaves"], [tuple(t) for t in case["triples"]], case.get("hidden"), budget_s=60)
     elif case["kind"] == "dsu":
-        check_dsu(ctx, case["n"], [tuple(h) for h in case["history"]])
+        check_dsu(ctx, case["n"], [tuple(h) for h in case["history"]], binary_first=case.get("binary_first", False))
     else:
         ctx.notes.append("supertree cases are replayed by seed (random restriction sets)")
